@@ -401,6 +401,36 @@ def check_bin_count_rules(ctx, rule, m):
                   + f", which is not {want_src}", ibc.where)
 
 
+def check_copy_forwards(ctx, rule, m):
+    """copy() of every binning class hands every state-determining constructor parameter on from the instance."""
+    COPY = {"FixedWidthBinning": {"bin_width": "self._bin_width", "bin_count": "self._bin_count", "bin_times_min": "self._times_min", "bin_shift": "self._shift",
+                                  "includes_right_edge": "self.includes_right_edge", "adaptive": "self._adaptive", "align": "self._align"},
+            "StaticBinning": {"bins": "self.bins.copy()", "includes_right_edge": "self.includes_right_edge"},
+            "NumpyBinning": {"numpy_bins": "self.numpy_bins", "includes_right_edge": "self.includes_right_edge"},
+            "ExponentialBinning": {0: "self._log_min", 1: "self._log_width", 2: "self._bin_count", 3: "self.includes_right_edge"}}
+    for cname, want in COPY.items():
+        c = m.cls(cname)
+        cp = c.methods.get("copy")
+        if cp is None:
+            ctx.bad(rule, f"{cname}.copy", "no copy()", c.where)
+            continue
+        ctx.saw(cp)
+        call = [x for x in calls_in(cp.node) if U(x.func) == cname]
+        probs = []
+        if not call:
+            probs.append("does not construct a new instance of its own class")
+        else:
+            for kk, vv in want.items():
+                got = kwarg(call[0], kk) if isinstance(kk, str) else (call[0].args[kk] if kk < len(call[0].args) else None)
+                if got is None and isinstance(kk, int):
+                    names = [p for p in c.methods["__init__"].params() if p != "self"]
+                    got = kwarg(call[0], names[kk])
+                if got is None or U(got) != vv:
+                    probs.append(f"{kk} <- {U(got) if got is not None else 'missing'} (expected {vv})")
+        ctx.check(not probs, rule, f"{cname}.copy", "every state-determining parameter forwarded from the instance", " ; ".join(probs), cp.where)
+
+
+
 def run(ctx):
     m = ctx.model
     bn = m.module("binnings")
@@ -599,31 +629,17 @@ def run(ctx):
     # ---- C07.d one source of truth ---------------------------------------------------------------------------------------------
     ctx.rule("C07.d", "FixedWidthBinning edges are one formula; copy() forwards all state", 6)
     check_edge_formula(ctx, "C07.d", m)
-    COPY = {"FixedWidthBinning": {"bin_width": "self._bin_width", "bin_count": "self._bin_count", "bin_times_min": "self._times_min", "bin_shift": "self._shift",
-                                  "includes_right_edge": "self.includes_right_edge", "adaptive": "self._adaptive", "align": "self._align"},
-            "StaticBinning": {"bins": "self.bins.copy()", "includes_right_edge": "self.includes_right_edge"},
-            "NumpyBinning": {"numpy_bins": "self.numpy_bins", "includes_right_edge": "self.includes_right_edge"},
-            "ExponentialBinning": {0: "self._log_min", 1: "self._log_width", 2: "self._bin_count", 3: "self.includes_right_edge"}}
-    for cname, want in COPY.items():
-        c = m.cls(cname)
-        cp = c.methods.get("copy")
-        if cp is None:
-            ctx.bad("C07.d", f"{cname}.copy", "no copy()", c.where)
-            continue
-        ctx.saw(cp)
-        call = [x for x in calls_in(cp.node) if U(x.func) == cname]
-        probs = []
-        if not call:
-            probs.append("does not construct a new instance of its own class")
-        else:
-            for kk, vv in want.items():
-                got = kwarg(call[0], kk) if isinstance(kk, str) else (call[0].args[kk] if kk < len(call[0].args) else None)
-                if got is None and isinstance(kk, int):
-                    names = [p for p in c.methods["__init__"].params() if p != "self"]
-                    got = kwarg(call[0], names[kk])
-                if got is None or U(got) != vv:
-                    probs.append(f"{kk} <- {U(got) if got is not None else 'missing'} (expected {vv})")
-        ctx.check(not probs, "C07.d", f"{cname}.copy", "every state-determining parameter forwarded from the instance", " ; ".join(probs), cp.where)
+    check_copy_forwards(ctx, "C07.d", m)
+
+    # `==` of binnings compares the edge arrays; no schema substitutes a comparison of its own parameters
+    eqs = [c.name for c in m.subclasses(BB) if "__eq__" in c.methods]
+    beq = BB.methods["__eq__"]
+    cmp_rets = [U(n.value) for n in ast.walk(beq.node) if isinstance(n, ast.Return) and isinstance(n.value, ast.Call)]
+    okeq = bool(cmp_rets) and all(r in ("np.array_equal(self.bins, other.bins)", "np.array_equal(self.numpy_bins, other.numpy_bins)",
+                                        "np.array_equal(other.bins, self.bins)", "np.array_equal(other.numpy_bins, self.numpy_bins)") for r in cmp_rets)
+    ctx.check(not eqs and okeq, "C07.d", "binning-equality", "only BinningBase defines ==, and it compares the edge arrays exactly",
+              (f"{eqs} define their own __eq__ (a comparison of generating parameters can call binnings equal whose edges differ)" if eqs
+               else f"BinningBase.__eq__ compares {cmp_rets}"), beq.where)
 
     # ---- C07.e caches never mutated in place -------------------------------------------------------------------------------------
     ctx.rule("C07.e", "cached edge arrays (_bins, _numpy_bins, .bins, .numpy_bins) are never modified in place anywhere", 1)
